@@ -1,4 +1,5 @@
 pub mod bulkhead;
+pub mod cache;
 pub mod circuit;
 pub mod coalesce;
 pub mod common;
@@ -10,7 +11,7 @@ pub mod timelimiter;
 use crate::driver::Prop;
 
 pub fn all() -> Vec<Box<dyn Prop>> {
-    vec![Box::new(bulkhead::C01), Box::new(bulkhead::C07), Box::new(timelimiter::C06), Box::new(retry::C05), Box::new(hedge::C12), Box::new(coalesce::C11), Box::new(ratelimiter::C02), Box::new(ratelimiter::C15), Box::new(circuit::C03), Box::new(circuit::C04), Box::new(circuit::C09)]
+    vec![Box::new(bulkhead::C01), Box::new(bulkhead::C07), Box::new(timelimiter::C06), Box::new(retry::C05), Box::new(hedge::C12), Box::new(coalesce::C11), Box::new(ratelimiter::C02), Box::new(ratelimiter::C15), Box::new(circuit::C03), Box::new(circuit::C04), Box::new(circuit::C09), Box::new(cache::C10)]
 }
 
 pub fn by_id(id: &str) -> Option<Box<dyn Prop>> {
